@@ -40,7 +40,8 @@ BASE_ASSUMPTIONS = [
 
 
 class Unit(object):
-  def __init__(self, name, run, functions, replay=None, expect_covers=(), note=''):
+  def __init__(self, name, run, functions, replay=None, expect_covers=(), note='', native_clauses=()):
+    self.native_clauses = list(native_clauses)   # top-level clauses the native search can evaluate
     self.name = name
     self.run = run                    # run(ctx, index)
     self.functions = functions        # qualnames of the functions whose bodies are executed
@@ -131,15 +132,28 @@ def run_property(prop, tier='quick', seed=0, only_unit=None, verbose=False):
   replay_dir = os.path.join(VERIF, 'out', 'replays')
   os.makedirs(replay_dir, exist_ok=True)
   unit_of = {}
+  weak_notes = []
+  mismatch_units = []
 
   for u in prop.units:
     if only_unit and only_unit not in u.name:
       continue
     ut0 = time.time()
     try:
-      obs, covers, n_paths, n_done = explorer.explore(u.name, lambda ctx: u.run(ctx, index))
+      from .interp import NeedWeak, WEAK_SITES
+      WEAK_SITES.clear()
+      for _attempt in range(6):
+        try:
+          obs, covers, n_paths, n_done = explorer.explore(u.name, lambda ctx: u.run(ctx, index))
+          break
+        except NeedWeak as nw:
+          WEAK_SITES.add(nw.site)
+          weak_notes.append("%s: container allocated at %r is written inside a cut loop outside the loop contract's frame; abstracted to an untracked (fully nondeterministic) container" % (u.name, nw.site))
+      else:
+        raise EngineError("too many untracked containers")
     except AnchorMoved as e:
       status['undecided'].append("%s: contract anchor moved: %s" % (u.name, e))
+      mismatch_units.append(u)
       continue
     except EngineError as e:
       status['crash'].append("%s: %s" % (u.name, e))
@@ -148,6 +162,14 @@ def run_property(prop, tier='quick', seed=0, only_unit=None, verbose=False):
       continue
     except RecursionError as e:
       status['crash'].append("%s: recursion: %s" % (u.name, e))
+      continue
+    except (KeyError, AttributeError, TypeError, IndexError) as e:
+      # the contract refers to something the (changed) function no longer has, e.g. a loop
+      # invariant over a local variable that was refactored away: the contract does not apply
+      status['undecided'].append("%s: contract no longer matches the code (%s: %s)" % (u.name, type(e).__name__, e))
+      mismatch_units.append(u)
+      if verbose:
+        traceback.print_exc()
       continue
     obs = [ob for ob in obs if any(ob.label.startswith(p) for p in prop.label_prefixes)]
     for ob in obs:
@@ -282,6 +304,32 @@ def run_property(prop, tier='quick', seed=0, only_unit=None, verbose=False):
         status['undecided'].append("%s: %s (%d instance(s); native search found no failing input; relaxed: %s)" % (
           label, why, len(obs), sorted(set(v[0] for v in verdicts))))
 
+  # units whose contract could not be applied to the changed code: the function-level clauses can
+  # still be searched natively on the real code (a found input is a confirmed violation; nothing
+  # found leaves the unit undecided)
+  class _Ob(object):
+    def __init__(self, label, unit):
+      self.label, self.unit, self.kind, self.path, self.meta, self.goal = label, unit, 'ensures', (), {}, None
+  for u in mismatch_units:
+    if u.replay is None:
+      continue
+    for label in u.native_clauses:
+      if not any(label.startswith(p) for p in prop.label_prefixes):
+        continue
+      try:
+        out = u.replay({}, _Ob(label, u.name))
+      except Exception as e:
+        out = {'replay_error': repr(e)}
+      if out and out.get('native_confirms'):
+        path = os.path.join(replay_dir, _safe(label) + '.json')
+        with open(path, 'w') as f:
+          json.dump({'property': prop.pid, 'obligation': label, 'unit': u.name,
+                     'solver_verdict': 'not generated: the contract (loop invariant / anchor) no longer matches the code',
+                     'native_confirms': True, 'replay': out,
+                     'note': 'failing input found by the guided native search over the real code'},
+                    f, indent=1, default=str)
+        violations.append((label, path, ''))
+
   # refutations -> replay
   for label, obs in sorted(refuted_labels.items()):
     ob = obs[0]
@@ -385,6 +433,7 @@ def run_property(prop, tier='quick', seed=0, only_unit=None, verbose=False):
       'syntactic_obligations': [{'name': s.name, 'what': s.what, 'ok': ok, 'detail': detail}
                                 for (s, ok, detail) in syn_results],
       'known_findings_reported': known_lines,
+      'untracked_containers': weak_notes,
       'undecided': status['undecided'],
       'checker_errors': status['crash'] + status['vacuous'],
       'feasibility_queries': explorer.feas_queries,
